@@ -235,14 +235,14 @@ func c20Histories() map[string][]c20Step {
 }
 
 func enumC20(tier string, part, parts, skip int, deadline time.Time, note func(int, string)) *run.EnumResult {
-	res := &run.EnumResult{Exhaustive: true, Rule: "fail-stop: 6 base histories (idle connections, outstanding subscribe, outstanding call, HTTP requests in flight, pending eviction, throttled reset in progress) over real WebSocket connections (in-memory pipe through wsHandler/gorilla) x a fault injected after every step index x {Stop(nil), messaging closed handler with an error} x {quiet close, messages still delivered while the messaging client is closing: an event per cached resource and the answers to all outstanding requests}; then the remaining steps are attempted, a new WebSocket dial and HTTP request are made, and Start/subscribe/Stop is repeated. distinct_nontrivial counts (history, index, fault) triples with at least one connection open at the fault"}
+	res := &run.EnumResult{Exhaustive: true, Rule: "fail-stop: 6 base histories (idle connections, outstanding subscribe, outstanding call, HTTP requests in flight, pending eviction, throttled reset in progress) over real WebSocket connections (in-memory pipe through wsHandler/gorilla) x a fault injected after every step index x {Stop(nil), messaging closed handler with an error} x {quiet close, messages still delivered while the messaging client is closing: an event per cached resource and the answers to all outstanding requests, the other kind of stop arriving while the first is under way}; then the remaining steps are attempted, a new WebSocket dial and HTTP request are made, and Start/subscribe/Stop is repeated. distinct_nontrivial counts (history, index, fault) triples with at least one connection open at the fault"}
 	hs := c20Histories()
 	names := []string{"idle", "outstanding-subscribe", "outstanding-call", "http-in-flight", "pending-eviction", "throttled-reset"}
 	idx := -1
 	for _, hn := range names {
 		steps := hs[hn]
 		for at := 0; at <= len(steps); at++ {
-			for _, fault := range []string{"stop", "mq-lost", "stop+late", "mq-lost+late"} {
+			for _, fault := range []string{"stop", "mq-lost", "stop+late", "mq-lost+late", "stop+second", "mq-lost+second"} {
 				idx++
 				if idx%parts != part || idx < skip {
 					continue
@@ -285,6 +285,10 @@ func enumC20(tier string, part, parts, skip int, deadline time.Time, note func(i
 func runC20(hn string, steps []c20Step, at int, fault string) (issues []string, open int) {
 	late := strings.HasSuffix(fault, "+late")
 	fault = strings.TrimSuffix(fault, "+late")
+	// +second: while the stop is under way (or right after it) the other kind of
+	// stop arrives as well; the first cause is the one reported, once
+	second := strings.HasSuffix(fault, "+second")
+	fault = strings.TrimSuffix(fault, "+second")
 	st := &c20State{hold: map[string]bool{}}
 	sc := &mc.Scenario{Name: "c20/" + hn, NoEvict: true,
 		Cfg: func(c *server.Config) {
@@ -347,6 +351,25 @@ func runC20(hn string, steps []c20Step, at int, fault string) (issues []string, 
 				w.MQ.ClosedHandler()(cause)
 			}
 		}()
+		if second {
+			time.Sleep(5 * time.Millisecond)
+			sd := make(chan struct{})
+			go func() {
+				defer close(sd)
+				if fault == "stop" {
+					if h := w.MQ.ClosedHandler(); h != nil {
+						h(cause)
+					}
+				} else {
+					w.Serv.Stop(nil)
+				}
+			}()
+			select {
+			case <-sd:
+			case <-time.After(20 * time.Second):
+				st.issues = append(st.issues, "stop-timeout: a second stop request made while stopping did not return within 20s")
+			}
+		}
 		// while Stop is still under way (it may wait for connections), nothing new is accepted
 		select {
 		case <-done:
@@ -381,8 +404,19 @@ func runC20(hn string, steps []c20Step, at int, fault string) (issues []string, 
 		// cause reported on the stop channel
 		select {
 		case err := <-stopCh:
-			if fault == "stop" && err != nil || fault == "mq-lost" && err != cause {
+			// with two stop requests under way either may have been the first (they
+			// are made from two goroutines): its cause is reported, and only it
+			if !second && (fault == "stop" && err != nil || fault == "mq-lost" && err != cause) || second && err != nil && err != cause {
 				st.issues = append(st.issues, fmt.Sprintf("stop-cause: stop channel reported %v", err))
+			}
+			// exactly one cause: the channel is closed after it
+			select {
+			case err2, open := <-stopCh:
+				if open {
+					st.issues = append(st.issues, fmt.Sprintf("stop-cause: a second cause %v was reported on the stop channel", err2))
+				}
+			case <-time.After(2 * time.Second):
+				st.issues = append(st.issues, "stop-cause: the stop channel was not closed after the cause")
 			}
 		case <-time.After(5 * time.Second):
 			st.issues = append(st.issues, "stop-cause: nothing reported on the stop channel")
